@@ -46,6 +46,9 @@ type ProcessorNode struct {
 	swapMu  sync.Mutex
 	pending *pendingSwap
 	wakeCh  chan struct{}
+	// stopped is set (under swapMu) when Run returns: nobody will claim a
+	// staged request any more, so Reconfigure must fail instead of waiting.
+	stopped bool
 }
 
 // pendingSwap is a staged live-reconfigure request. done carries the outcome back
@@ -82,6 +85,11 @@ func (n *ProcessorNode) Run(ctx context.Context) error {
 	// live reconfigure applies promptly even when no records are flowing.
 	in := n.base.In()
 	wake := n.wake()
+
+	// A reconfigure request that is staged but not yet claimed when this node
+	// stops (the run failed or was stopped) would never be answered and its
+	// caller would wait forever: reject it, and any later one.
+	defer n.rejectPendingSwap()
 
 	// Teardown needs to be called even if Open() fails
 	// (to mark the processor as not running)
@@ -258,6 +266,10 @@ func (n *ProcessorNode) Reconfigure(ctx context.Context, newProcessor Processor)
 	wake := n.wake()
 
 	n.swapMu.Lock()
+	if n.stopped {
+		n.swapMu.Unlock()
+		return cerrors.New("processor node is not running, cannot reconfigure it in place")
+	}
 	if n.pending != nil {
 		n.swapMu.Unlock()
 		return cerrors.New("a processor reconfigure is already in progress")
@@ -346,6 +358,20 @@ func (n *ProcessorNode) applyPendingSwap(ctx context.Context) {
 // this distinction implements TeardownForReconfigure; any other implementation
 // (e.g. a test mock) falls back to the plain Teardown, which is correct for
 // processors that don't share instance state across a swap.
+// rejectPendingSwap marks the node as stopped and fails a staged request that
+// was never claimed. The new processor of such a request was not opened yet,
+// so there is nothing to tear down.
+func (n *ProcessorNode) rejectPendingSwap() {
+	n.swapMu.Lock()
+	p := n.pending
+	n.pending = nil
+	n.stopped = true
+	n.swapMu.Unlock()
+	if p != nil {
+		p.done <- cerrors.New("processor node stopped before the live reconfigure was applied, keeping current processor")
+	}
+}
+
 func teardownForReconfigure(ctx context.Context, proc Processor) error {
 	if rp, ok := proc.(interface {
 		TeardownForReconfigure(context.Context) error
